@@ -1,4 +1,5 @@
 import L21.Props.C07
+import L21.Props.C07RT
 #print axioms L21.RawGds.c07_path_open
 #print axioms L21.RawGds.c07_path_roundtrip
 #print axioms L21.RawGds.c07_rect_roundtrip
@@ -7,3 +8,6 @@ import L21.Props.C07
 #print axioms L21.RawGds.c07_label_inside_rect
 #print axioms L21.RawGds.c07_label_inside_polygon
 #print axioms L21.RawGds.c07_label_inside_path
+#print axioms L21.RawGds.c07_cell_roundtrip
+#print axioms L21.RawGds.c07_cell_roundtrip_nonets
+#print axioms L21.RawGds.c07_label_names_one
